@@ -66,7 +66,10 @@ class Program(object):
             include_filename = statement.get_include_filename()
             if include_filename:
                 include_source = SourceFile(include_filename)
-                include_source.read_file()
+                try:
+                    include_source.read_file()
+                except OSError as error:
+                    raise TranslationError("Unable to include [{}]: {}".format(include_filename, error), statement)
                 include = cls.process_mnemonics(cls.parse(include_source.get_buffer()))
                 processed_statements.extend(include)
             else:
